@@ -94,7 +94,15 @@ func (f *Formatter) formatConditionLines(expr ast.Expression) ([]string, bool, b
 				continue
 			}
 			if i < len(ops) {
-				opLines[len(opLines)-1] = opLines[len(opLines)-1] + " " + ops[i]
+				last := opLines[len(opLines)-1]
+				if idx := lineCommentIndex(last); idx >= 0 {
+					// The operand ends with a line comment: the operator must be placed before it, not inside it.
+					// The comment takes the following line, where it stays when the output is formatted again
+					opLines[len(opLines)-1] = strings.TrimRight(last[:idx], " ") + " " + ops[i]
+					opLines = append(opLines, last[idx:])
+				} else {
+					opLines[len(opLines)-1] = last + " " + ops[i]
+				}
 			}
 			lines = append(lines, opLines...)
 			preserve = preserve || opPreserve
@@ -124,4 +132,20 @@ func (f *Formatter) formatConditionExpression(expr ast.Expression, nest, offset 
 	}
 
 	return strings.Join(lines, "\n"), true, preserve
+}
+
+// lineCommentIndex returns the index where a line comment ("#" or "//") starts in the line, or -1.
+// String literals and block comments are skipped.
+func lineCommentIndex(line string) int {
+	for i := 0; i < len(line); {
+		if line[i] == '#' || strings.HasPrefix(line[i:], "//") {
+			return i
+		}
+		if end := literalEnd(line, i); end > i {
+			i = end
+			continue
+		}
+		i++
+	}
+	return -1
 }
